@@ -405,6 +405,11 @@ func (p *Parser) parseActions(token Token) []Expression {
 
 		otherUpdate := p.parseUpdateActionExpression()
 		if updateExpression, ok := otherUpdate.(*UpdateExpression); ok {
+			if len(updateExpression.Expressions) == 0 && len(p.errors) == 0 {
+				// a further clause keyword must be followed by at least one action
+				p.peekError(IDENT)
+			}
+
 			actions = append(actions, updateExpression.Expressions...)
 		}
 	}
